@@ -115,6 +115,13 @@ def check (inp out : List String) : Verdict :=
       { agree := m == raw, model := hexOf m,
         specFail := failing [("tx_exact", Spec.C17.txExact f raw)] }
     | _, _, _ => .bad "C17 tx tokens"
+  | ["rx", raw], ["TIMEOUT"] =>
+    -- the frame was put on the bus and never delivered (a network without a filter delivers every frame)
+    match hexBytes? raw with
+    | some raw =>
+      { agree := false, model := ((netRecv ⟨[], true⟩ raw).map showFrame).getD "none",
+        specFail := ["every_frame_is_delivered_with_its_identifier_masked"] }
+    | none => .bad "C17 rx tokens"
   | ["rx", raw], [fr] =>
     match hexBytes? raw, parseFrame? fr with
     | some raw, some f =>
